@@ -33,10 +33,11 @@ func (w *World) allocSingleStore(a *ssa.Alloc) ssa.Value {
 		return v
 	}
 	fi.single[a] = nil
-	var stores []ssa.Value
+	var stores []*ssa.Store
+	var uses []ssa.Instruction // loads in a's function and closure creations binding a
 	ok := true
-	var visit func(addr ssa.Value)
-	visit = func(addr ssa.Value) {
+	var visit func(addr ssa.Value, inClosure bool)
+	visit = func(addr ssa.Value, inClosure bool) {
 		refs := addr.Referrers()
 		if refs == nil {
 			ok = false
@@ -46,24 +47,27 @@ func (w *World) allocSingleStore(a *ssa.Alloc) ssa.Value {
 			switch r := r.(type) {
 			case *ssa.Store:
 				if r.Addr == addr {
-					stores = append(stores, r.Val)
+					stores = append(stores, r)
 				} else {
 					ok = false // address stored somewhere
 				}
 			case *ssa.UnOp:
-				// load
+				if !inClosure {
+					uses = append(uses, r)
+				}
 			case *ssa.MakeClosure:
+				if !inClosure {
+					uses = append(uses, r)
+				}
 				cl := r.Fn.(*ssa.Function)
 				for i, b := range r.Bindings {
 					if b == addr {
-						visit(cl.FreeVars[i])
+						visit(cl.FreeVars[i], true)
 					}
 				}
 			case *ssa.DebugRef:
 			case *ssa.FieldAddr, *ssa.IndexAddr:
-				// address of a part: writes through it are not whole-value stores; be
-				// conservative only when the alloc holds a pointer-free scalar; for
-				// struct locals (pipelineDef copy) field reads are fine.
+				// address of a part: writes through it are not whole-value stores
 				if hasStoreThrough(r.(ssa.Value)) {
 					ok = false
 				}
@@ -72,9 +76,18 @@ func (w *World) allocSingleStore(a *ssa.Alloc) ssa.Value {
 			}
 		}
 	}
-	visit(a)
-	if ok && len(stores) == 1 {
-		fi.single[a] = stores[0]
+	visit(a, false)
+	if ok && len(stores) == 1 && stores[0].Parent() == fn {
+		// the store must precede every use (a declared-but-unassigned variable holds its zero
+		// value until a later store, e.g. one made by a goroutine)
+		for _, u := range uses {
+			if !instrDominates(stores[0], u) {
+				ok = false
+			}
+		}
+		if ok {
+			fi.single[a] = stores[0].Val
+		}
 	}
 	return fi.single[a]
 }
